@@ -148,3 +148,11 @@ package options
 //@ ensures[keycloak-roles-and-entra-tenants-as-configured] (old(l.ProviderType) == "keycloak-oidc" ==> ret0[0].KeycloakConfig.Roles == old(l.AllowedRoles)
 //@     && ret0[0].KeycloakConfig.Groups == old(l.KeycloakGroups))
 //@     && (old(l.ProviderType) == "entra-id" ==> ret0[0].MicrosoftEntraIDConfig.AllowedTenants == old(l.EntraIDAllowedTenants))
+
+// `stable Options.Cookie / Options.LegacyPreferEmailToUser`: the cookie options live inside Options and are shared by address
+// with the stores NewOAuthProxy builds (what may write *into* them is the scan cookie-options-writers); the legacy flag is set by
+// the legacy conversion, before validation
+//@ prop C01 C07 C09 C18 C19
+//@ scan[stable:cookie-options-shared-by-the-constructor-only] field-writers Options.Cookie main.NewOAuthProxy main.buildSessionChain pkg/apis/options.NewOptions pkg/apis/options.(*LegacyOptions).ToOptions pkg/sessions/tests.* pkg/validation.*
+//@ scan[stable:legacy-prefer-email-set-by-the-legacy-conversion] field-writers Options.LegacyPreferEmailToUser pkg/apis/options.(*LegacyOptions).ToOptions pkg/apis/options.NewOptions
+
